@@ -93,11 +93,17 @@ Section Lower.
   Definition x_reverse (order : list (str * nat) -> list (str * nat)) (s : xst) : list str :=
     fold_left (fun rd kv => upd rd (snd kv) (fst kv)) (order (x_dict s)) (repeat [] (x_size s)).
 
-  (* ---------- GeneratePeopleDict: (PeopleDict, ReversedPeopleDict) ---------- *)
+  (* ---------- GeneratePeopleDict: (PeopleDict, ReversedPeopleDict) ----------
+     None = Go panics: "commits[len(commits)-1]" (where the .mailmap is looked for) is out of range
+     for an empty commit list.  The .mailmap lookup itself fails on the modelled repositories. *)
   Definition generate_people_dict (exact : bool) (order : list (str * nat) -> list (str * nat))
-             (cs : list commit) : list (str * nat) * list str :=
-    if exact then let s := x_run cs in (x_dict s, x_reverse order s)
-    else let s := g_run cs in (g_dict s, g_reverse order s).
+             (cs : list commit) : option (list (str * nat) * list str) :=
+    match cs with
+    | [] => None
+    | _ :: _ =>
+        if exact then let s := x_run cs in Some (x_dict s, x_reverse order s)
+        else let s := g_run cs in Some (g_dict s, g_reverse order s)
+    end.
 
   (* ---------- Consume ---------- *)
   Definition author_missing : Z := 262142%Z.      (* (1 << 18) - 2 *)
@@ -180,7 +186,7 @@ End Lower.
 (* ---------- instances used by the replay driver ---------- *)
 Definition id_order (l : list (str * nat)) : list (str * nat) := l.
 
-Definition gen_ascii (exact : bool) (cs : list commit) : list (str * nat) * list str :=
+Definition gen_ascii (exact : bool) (cs : list commit) : option (list (str * nat) * list str) :=
   generate_people_dict lower_ascii exact id_order cs.
 Definition consume_ascii (exact : bool) (dict : list (str * nat)) (c : commit) : Z :=
   consume lower_ascii exact dict c.
